@@ -5,6 +5,7 @@ import GoRes.Driver.Subs
 import GoRes.Driver.Store
 import GoRes.Driver.Req
 import GoRes.Driver.Pool
+import GoRes.Driver.Idx
 /-! `gores-driver <domain>`: one op line in, one line `model<TAB>spec<TAB>tag` out. -/
 open GoRes GoRes.Wire
 
@@ -12,6 +13,7 @@ structure DState where
   mux : GoRes.Driver.Mux.St := {}
   store : GoRes.Driver.Store.St := {}
   pool : GoRes.Driver.Pool.VSt := {}
+  idx : GoRes.Driver.Idx.St := {}
 
 def stepLine (dom : String) (st : DState) (full : String) : DState × String :=
   -- a line is `op` or `op<TAB>implementation outcome`
@@ -33,9 +35,12 @@ def stepLine (dom : String) (st : DState) (full : String) : DState × String :=
       ({ st with store := ss }, m ++ "\t" ++ s ++ "\t" ++ t)
     | "req" | "req04" | "req05" | "req07" | "req08" =>
       let (m, s, t) := GoRes.Driver.Req.run dom args impl; (st, m ++ "\t" ++ s ++ "\t" ++ t)
-    | "pool" =>
-      let (ps, m, s, t) := GoRes.Driver.Pool.run st.pool args
+    | "pool" | "pool01" | "pool02" | "pool03" =>
+      let (ps, m, s, t) := GoRes.Driver.Pool.run dom st.pool args
       ({ st with pool := ps }, m ++ "\t" ++ s ++ "\t" ++ t)
+    | "idx" =>
+      let (is, m, s, t) := GoRes.Driver.Idx.run st.idx args impl
+      ({ st with idx := is }, m ++ "\t" ++ s ++ "\t" ++ t)
     | "subs" => let (m, s, t) := GoRes.Driver.Subs.run args impl; (st, m ++ "\t" ++ s ++ "\t" ++ t)
     | _ => (st, "bad-domain\t-\tbad")
 
